@@ -20,4 +20,4 @@ DELIVERABLES, in {out}/1/ and {out}/2/ (one directory per change):
   - patch.diff : output of `git -C {wt} diff` for that change alone (apply-able with `git apply` on a clean tree)
   - a demonstration: a small C program plus `demo.sh` (or a Python script run by demo.sh) that takes the repository root as its first argument, builds what it needs from that root, and exits 0 on the unmodified tree but exits non-zero (printing what went wrong) when the change is applied. It must exercise the REAL repository code (compile/include the real files), not a copy.
   - meta.json : {{"property": "{pid}", "summary": "...", "needs_to_manifest": "...", "files_changed": [...], "commands_run": [...]}}
-You must verify BOTH directions yourself (demo passes on the clean tree, fails with the patch; pinned tests pass with the patch). Leave {wt} clean (`git -C {wt} checkout -- .`) when you finish. Your final message: for each change, 3-4 lines: what was changed, what is needed to trigger it, and how the demo shows it.""")
+You must verify BOTH directions yourself (demo passes on the clean tree, fails with the patch; pinned tests pass with the patch). Do NOT use `git stash` (stash refs are shared by all worktrees of the repository and other agents work in sibling worktrees): save a change with `git diff > file`, revert with `git checkout -- .`, re-apply with `git apply file`. Leave {wt} clean (`git -C {wt} checkout -- .`) when you finish. Your final message: for each change, 3-4 lines: what was changed, what is needed to trigger it, and how the demo shows it.""")
